@@ -67,18 +67,6 @@ fn serialize_range_mappings(sm: &SourceMap) -> Option<String> {
     let mut rmi_data = Vec::<u8>::new();
 
     for (idx, token) in sm.tokens().enumerate() {
-        if token.is_range() {
-            had_rmi = true;
-            empty = false;
-
-            let num = idx - idx_of_first_in_line;
-
-            rmi_data.resize(rmi_data.len() + 2, 0);
-
-            let rmi_bits = rmi_data.view_bits_mut::<Lsb0>();
-            rmi_bits.set(num, true);
-        }
-
         while token.get_dst_line() != prev_line {
             if had_rmi {
                 encode_rmi(&mut buf, &rmi_data);
@@ -89,6 +77,20 @@ fn serialize_range_mappings(sm: &SourceMap) -> Option<String> {
             prev_line += 1;
             had_rmi = false;
             idx_of_first_in_line = idx;
+        }
+
+        if token.is_range() {
+            had_rmi = true;
+            empty = false;
+
+            let num = idx - idx_of_first_in_line;
+
+            if rmi_data.len() < num / 8 + 1 {
+                rmi_data.resize(num / 8 + 1, 0);
+            }
+
+            let rmi_bits = rmi_data.view_bits_mut::<Lsb0>();
+            rmi_bits.set(num, true);
         }
     }
     if empty {
